@@ -237,4 +237,69 @@ theorem execLoop_ok (env : Env) (items : List Item) (seq : List Nat) (hlen : ite
       rw [this]
     rw [e1, e2, List.append_assoc, List.singleton_append]
 
+/-- the loop either runs to the end (count `≥ 0`) or stops at a callback that returned `rc < 0` -/
+theorem execLoop_result (env : Env) (items : List Item) (seq : List Nat) :
+    ∀ (rem i : Nat) (ne : Int) (ran : List Item) (e : ExecEnd) (r : List Item),
+      execLoop env items seq rem i ne ran = .ok (e, r) → 0 ≤ ne →
+      match e with
+      | .done k => 0 ≤ k
+      | .err rc => rc < 0 := by
+  intro rem
+  induction rem with
+  | zero =>
+    intro i ne ran e r h hne
+    simp only [execLoop, Except.ok.injEq, Prod.mk.injEq] at h
+    rw [← h.1]; exact hne
+  | succ rem ih =>
+    intro i ne ran e r h hne
+    simp only [execLoop, bind, Except.bind] at h
+    cases h1 : idx seq i with
+    | error f => simp [h1] at h
+    | ok si =>
+      simp only [h1] at h
+      cases h2 : idx items si with
+      | error f => simp [h2] at h
+      | ok item =>
+        simp only [h2] at h
+        cases h3 : callCb env item with
+        | error f => simp [h3] at h
+        | ok rc =>
+          simp only [h3] at h
+          by_cases hneg : rc < 0
+          · simp only [hneg, if_true, pure, Except.pure, Except.ok.injEq, Prod.mk.injEq] at h
+            rw [← h.1]; exact hneg
+          · simp only [hneg, if_false] at h
+            exact ih (i + 1) (ne + 1) _ e r h (by omega)
+
+/-- error path of `tdma_sched_execute`: a negative return value means a callback failed, and then the
+scheduler state is exactly what it was (the bucket is not cleared: its items stay scheduled) -/
+theorem execute_error_keeps_state (env : Env) (s s' : Sched) (rc : Int) (ran : List Item)
+    (h : execute env s = .ok (s', rc, ran)) (hrc : rc < 0) : s' = s := by
+  simp only [execute, bind, Except.bind] at h
+  cases h1 : idx s.bucket s.cur with
+  | error f => simp [h1] at h
+  | ok b =>
+    simp only [h1] at h
+    cases h2 : bucketSort b with
+    | error f => simp [h2] at h
+    | ok seq =>
+      simp only [h2] at h
+      cases h3 : execLoop env b.item seq b.numItems 0 0 [] with
+      | error f => simp [h3] at h
+      | ok res =>
+        obtain ⟨e, r⟩ := res
+        simp only [h3] at h
+        have hres := execLoop_result env b.item seq b.numItems 0 0 [] e r h3 (by omega)
+        cases e with
+        | err rc' =>
+          simp only [pure, Except.pure, Except.ok.injEq, Prod.mk.injEq] at h
+          exact h.1.symm
+        | done k =>
+          simp only [] at h hres
+          cases h4 : setIdx s.bucket s.cur { b with numItems := 0 } with
+          | error f => simp [h4] at h
+          | ok bs =>
+            simp only [h4, pure, Except.pure, Except.ok.injEq, Prod.mk.injEq] at h
+            omega
+
 end OsmoVerif.TdmaSched
